@@ -635,6 +635,9 @@ func main() {
 	case "ndjson":
 		ndjsonMain(f)
 		return
+	case "reqopts":
+		reqoptsMain(f)
+		return
 	}
 	out := hx.OpenOut(f.Out)
 	defer out.Close()
